@@ -135,7 +135,12 @@ pub enum ExecVerdict {
     Stuck { spinners: Vec<usize>, blocked: Vec<usize> },
     Panic(String),
     StepLimit,
+    /// the chooser ended the run on purpose (isolation schedules)
+    Halted,
 }
+
+/// Returned by a chooser to end the run.
+pub const HALT: usize = usize::MAX;
 
 pub struct Exec<R> {
     pub ops: Vec<OpRec<R>>,
@@ -159,6 +164,8 @@ pub struct Decision<'a> {
     pub ops_done: &'a [usize],
     /// workers currently between OpStart and OpEnd
     pub in_op: &'a [bool],
+    /// workers in a futile spin (disabled until someone writes the location they wait for)
+    pub spinners: &'a [usize],
 }
 
 pub trait Chooser {
@@ -172,6 +179,12 @@ pub trait Chooser {
 pub type OpFn<'a, R> = Box<dyn FnOnce() -> R + Send + 'a>;
 
 pub fn run<'a, R: Send + 'a>(threads: Vec<Vec<OpFn<'a, R>>>, chooser: &mut dyn Chooser, max_steps: usize) -> Exec<R> {
+    run_opts(threads, chooser, max_steps, false)
+}
+
+/// `hold_last`: the last thread is a finalizer that only becomes enabled once every other thread has
+/// finished (quiescent reads that must still run under the scheduler so that a spin is detected).
+pub fn run_opts<'a, R: Send + 'a>(threads: Vec<Vec<OpFn<'a, R>>>, chooser: &mut dyn Chooser, max_steps: usize, hold_last: bool) -> Exec<R> {
     let n = threads.len();
     let shared = Arc::new(Shared {
         slots: (0..n)
@@ -283,6 +296,8 @@ pub fn run<'a, R: Send + 'a>(threads: Vec<Vec<OpFn<'a, R>>>, chooser: &mut dyn C
                         }
                     }
                     Note::Unlock(e) => {
+                        let st = exec.trace.last().map_or(0, |t| t.step);
+                        exec.trace.push(TraceEv { step: st, thread: w, ann: Ann::Sync(e), outcome: None, spurious: false, op: None });
                         let ent = locks.entry(e.addr).or_insert((None, vec![]));
                         match e.kind {
                             Kind::MutexUnlock | Kind::RwWriteUnlock => ent.0 = None,
@@ -308,9 +323,13 @@ pub fn run<'a, R: Send + 'a>(threads: Vec<Vec<OpFn<'a, R>>>, chooser: &mut dyn C
             let mut enabled = vec![];
             let mut spinners = vec![];
             let mut blocked = vec![];
+            let others_unfinished = (0..n.saturating_sub(1)).any(|w| pending[w].is_some());
             for w in 0..n {
                 let Some(a) = &pending[w] else { continue };
                 unfinished.push(w);
+                if hold_last && w == n - 1 && others_unfinished {
+                    continue;
+                }
                 let ok = match a {
                     Ann::Sync(e) => match e.kind {
                         Kind::MutexLock | Kind::RwWrite => {
@@ -370,8 +389,12 @@ pub fn run<'a, R: Send + 'a>(threads: Vec<Vec<OpFn<'a, R>>>, chooser: &mut dyn C
                 exec.verdict = ExecVerdict::StepLimit;
                 break;
             }
-            let d = Decision { step, enabled: &enabled, current, pending: &pending, sync_counts: &sync_counts, ops_done: &ops_done, in_op: &in_op };
+            let d = Decision { step, enabled: &enabled, current, pending: &pending, sync_counts: &sync_counts, ops_done: &ops_done, in_op: &in_op, spinners: &spinners };
             let mut w = chooser.choose(&d);
+            if w == HALT {
+                exec.verdict = ExecVerdict::Halted;
+                break;
+            }
             if !enabled.contains(&w) {
                 w = enabled[0];
             }
